@@ -362,7 +362,7 @@ Definition ExcC (st : cstate) (k : N) : Prop :=
 Definition PcOk (st : cstate) : Prop :=
   match s_pc st with
   | PNewAfterAdd k _ _ _ _ vs added =>
-      (added = true -> inC st k = true) /\ (forall x, In x (vkeys vs) -> inC st x = false)
+      (added = true -> inC st k = true /\ inS st k = false) /\ (forall x, In x (vkeys vs) -> inC st x = false)
   | PNewAfterStore vs => forall x, In x (vkeys vs) -> inC st x = false
   | PNewVictim v rest => forall x, In x (vkeys (v :: rest)) -> inC st x = false
   | PDelAfterPolicy k _ => inC st k = false
@@ -684,7 +684,7 @@ Proof.
     + right. left. exists cf. auto.
     + destruct (HK k a cf E) as [X|[X|X]]; auto. rewrite HP in X. auto.
   - unfold PcOk in *. rewrite HP. destruct (s_pc st); auto.
-    + destruct P as (P1 & P2). split; [intros X; rewrite HC; auto|intros x X; rewrite HC; auto].
+    + destruct P as (P1 & P2). split; [intros X; rewrite HC, HS; auto|intros x X; rewrite HC; auto].
     + intros x X. rewrite HC. auto.
     + intros x X. rewrite HC. auto.
     + rewrite HC. assumption.
@@ -776,7 +776,9 @@ Proof.
         right. right. left. exists b, cf. rewrite client_of_set. destruct (N.eqb_spec b a) as [->|];
           [rewrite K in E; discriminate|assumption].
     + unfold PcOk in *; sproj. destruct (s_pc st); auto.
-      destruct P as (P1 & P2). split; [assumption|]. intros x. rewrite HS. rewrite (P2 x). apply andb_false_r.
+      * destruct P as (P1 & P2). split; [|exact P2]. intros X. destruct (P1 X) as (Q1 & Q2). split; [exact Q1|].
+        rewrite HS. rewrite Q2. apply andb_false_r.
+      * destruct P as (P1 & P2). split; [assumption|]. intros x. rewrite HS. rewrite (P2 x). apply andb_false_r.
   - destruct (s_closed st); [inversion H; subst; assumption|]. sproj.
     destruct (buf_send _ _ _) as [st2|] eqn:E.
     + inversion H; subst. apply buf_send_frame in E. sproj.
@@ -932,7 +934,8 @@ Proof.
               ** rewrite (M5 eq_refl) in H1. destruct (Carry H1) as [X|X]; auto.
            ++ destruct (Carry (M1 x Hne H1)) as [X|X]; auto.
         -- unfold PcOk; sproj. split.
-           ++ intros ->. rewrite HC. apply M4. reflexivity.
+           ++ intros ->. rewrite HC, HS. split; [apply M4; reflexivity|].
+              destruct (inS st k0) eqn:E; [|reflexivity]. exfalso. apply (NoS k0 E). apply M4. reflexivity.
            ++ intros x Hx. rewrite HC. apply M3. assumption.
       * (* Update *)
         destruct (sl_update _ _ _) as [[s' bb] mets] eqn:SU. inversion H; subst; clear H.
@@ -1014,7 +1017,7 @@ Proof.
         by (intros x; unfold inC, emit; destruct (c_metrics c); sproj; reflexivity).
       split; [|split].
       * intros x H1 H2. rewrite HS in H1. rewrite HC in H2. unfold ExcS; sproj. left. cbn [pc_victims].
-        case_key x k; [rewrite (P1 eq_refl) in H2; discriminate|]. apply OldS; assumption.
+        case_key x k; [rewrite (proj1 (P1 eq_refl)) in H2; discriminate|]. apply OldS; assumption.
       * intros x H1 H2. rewrite HC in H1. rewrite HS in H2. apply orb_false_iff in H2. destruct H2 as (Hn & H2).
         unfold ExcC; sproj. destruct (OldC x H1 H2) as [(-> & _)|[(cf & X)|(a & cf & X)]].
         -- rewrite N.eqb_refl in Hn. discriminate.
